@@ -10,7 +10,7 @@ def run(ctx):
     q = ctx.quick
     plan = [
         {"scens": wcat.history_scenarios(), "policies": ("FIFO", "LIFO", "JOBS"), "bound": 1 if q else 2, "demote": True, "cap": 40000},
-        {"scens": wcat.nested_scenarios(), "policies": ("FIFO",), "bound": 1 if q else 2, "demote": True, "cap": 40000},
+        {"scens": wcat.nested_scenarios()[:2], "policies": ("FIFO",), "bound": 1 if q else 2, "demote": True, "cap": 40000},
         {"scens": wcat.thread_scenarios(), "policies": ("FIFO", "LIFO", "JOBS", "P:thread,main,loop,job"), "bound": 1 if q else 2, "demote": True, "cap": 40000},
         {"scens": [s for s in wcat.twoproc_scenarios() if s["family"] == "2proc:same"], "policies": wcat.POL_WIDE + wcat.POL_PROC, "bound": 1, "demote": True, "cap": 60000},
         {"scens": [s for s in wcat.twoproc_scenarios() if s["family"] == "2proc:same"], "policies": ("FIFO",), "bound": 1 if q else 2, "demote": True, "cap": 400000},
